@@ -1,8 +1,12 @@
+//! C20 probe: the harness with the instrumented allocator installed.
 use fv::ctx::Ctx;
 use fv::{Suite, with_suite};
 
+#[global_allocator]
+static A: fv::alloc_mon::MonAlloc = fv::alloc_mon::MonAlloc;
+
 fn run_one<C: Suite>(ctx: &mut Ctx) {
-    fv::props::run::<C>(ctx)
+    fv::props::c20::run::<C>(ctx)
 }
 
 fn main() {
